@@ -3,8 +3,11 @@
 import json, sys
 pid, wt = sys.argv[1], sys.argv[2]
 rnd2 = len(sys.argv) > 3 and sys.argv[3] == "2"
+rnd3 = len(sys.argv) > 3 and sys.argv[3] == "3"
 p = [json.loads(l) for l in open("/verif/properties.jsonl") if json.loads(l)["id"] == pid][0]
 extra = ("  4. this is a SECOND round: the first, most obvious place where one would break this property has already been used by someone else. Pick less obvious sites: a helper shared with other features, state carried from one call / file / statement to the next, a rarely taken branch, an interaction between two modules or between the library and the command line tools, or an input at an unusual but valid boundary. The two changes must be in different functions (preferably different files) from each other.\n" if rnd2 else "")
+if rnd3:
+    extra = ("  4. this is a THIRD round: single-token slips (a changed comparison, constant or operator) and the obvious sites have all been tried already. Make changes of a different nature: a restructuring that moves a step before/after another one, a cache / memo / default argument / class attribute that carries state between calls, a helper that two callers now share although they need slightly different behaviour, a fast path for the common case that is wrong for a rare one, an error path that leaves something half done, an interaction between the command line tools and the library (option combinations, existing files, several files in one run), or behaviour that depends on the ORDER or NUMBER of earlier operations. Each change should need at least two circumstances to coincide before the property is violated. The two changes must be in different files from each other if at all possible.\n")
 print(f"""You are helping test a verification framework by playing the role of a developer who introduces a subtle regression.
 
 Project: craigthomas/CoCoAssembler (pure-Python Motorola 6809 assembler + CoCo cassette/disk image utility). You have your own scratch git worktree of it at {wt} . Work ONLY inside {wt} (do not touch /repo, do not read or write anything under /verif). Python to use: /venv/bin/python . The project's test suite: `cd {wt} && /venv/bin/python -m pytest -q -p no:cacheprovider` (about 490 tests pass; exactly 4 tests in test/test_integration.py fail before any change because they call assertEquals - ignore those 4).
